@@ -385,7 +385,7 @@ func (fr *frame) noteCall(name string, st *State) {
 }
 
 // atCall checks the `at call F requires e` clauses of the top-level contract.
-func (fr *frame) atCall(name string, st *State, pos token.Pos, cc *ssa.CallCommon, args []T, site ssa.Value) {
+func (fr *frame) atCall(name string, st *State, pos token.Pos, cc *ssa.CallCommon, args []T, site interface{}) {
 	c := fr.c
 	if c.topFrame == nil || c.topFrame.contract == nil {
 		return
@@ -409,6 +409,11 @@ func (fr *frame) atCall(name string, st *State, pos token.Pos, cc *ssa.CallCommo
 		if cc != nil && i < len(cc.Args) {
 			env.vars[fmt.Sprintf("arg%d", i)] = cval{t: a, typ: cc.Args[i].Type()}
 		}
+	}
+	if mu, ok := site.(*ssa.MapUpdate); ok && cc == nil && len(args) == 2 {
+		// at update <map>: arg0 = key, arg1 = value
+		env.vars["arg0"] = cval{t: args[0], typ: mu.Key.Type()}
+		env.vars["arg1"] = cval{t: args[1], typ: mu.Value.Type()}
 	}
 	for _, cl := range cls {
 		t, err := env.Bool(cl.Expr)
